@@ -88,7 +88,7 @@ RESUMED = re.compile(r"^<\.\.\. ([a-z_0-9]+) resumed>(.*)\)\s+=\s+(-?\d+|\?)(.*)
 
 
 class Ev:
-    __slots__ = ("sys", "nth", "kind", "p1", "p2", "data", "failed", "pid", "marker", "flags", "pk")
+    __slots__ = ("sys", "nth", "kind", "p1", "p2", "data", "failed", "pid", "marker", "flags", "pk", "tk", "injected")
 
     def __repr__(self):
         return "Ev(%s#%d %s %s %s%s)" % (self.sys, self.nth, self.kind, self.p1, self.p2 or "", " FAILED" if self.failed else "")
@@ -99,10 +99,24 @@ def parse_trace(path, root_abs, root_rel):
     or non-mutating ones.  Paths are relative to the store root ('' = the root itself).
     `pk` = how many calls of this syscall name THIS THREAD has made so far that touch path p1
     (this one included): strace counts `inject=..:when=N` per tracee and, with `-P path`, only over
-    the calls touching that path, so (sys, p1, pk) addresses exactly this call in a re-run."""
+    the calls touching that path, so (sys, p1, pk) addresses exactly this call in a re-run.
+    `tk` = how many calls of this syscall name THIS THREAD has made so far, whatever they touch: the
+    address of the call for an injection without -P (a full trace of the faulted run).
+    `injected` = strace marked the call (INJECTED)."""
     pending = {}
     counts = {}
     pcounts = {}
+    tcounts = {}
+
+    def newev(name, pid):
+        ev = Ev()
+        ev.sys, ev.pid, ev.kind, ev.p1, ev.p2, ev.data, ev.failed, ev.marker, ev.flags, ev.pk = name, pid, None, None, None, None, False, None, None, 0
+        counts[name] = counts.get(name, 0) + 1
+        ev.nth = counts[name]
+        tcounts[(pid, name)] = tcounts.get((pid, name), 0) + 1
+        ev.tk = tcounts[(pid, name)]
+        ev.injected = False
+        return ev
     evs = []
     killed = False
 
@@ -123,6 +137,7 @@ def parse_trace(path, root_abs, root_rel):
 
     def finish(ev, name, args, ret, tail):
         ev.failed = ret.startswith("-") or ret == "?"
+        ev.injected = "(INJECTED)" in (tail or "")
         a = split_args(args)
         try:
             if name in ("mkdir", "mkdirat"):
@@ -197,10 +212,7 @@ def parse_trace(path, root_abs, root_rel):
             mu = UNFIN.match(rest)
             if mu:
                 name = mu.group(1)
-                ev = Ev()
-                ev.sys, ev.pid, ev.kind, ev.p1, ev.p2, ev.data, ev.failed, ev.marker, ev.flags, ev.pk = name, pid, None, None, None, None, False, None, None, 0
-                counts[name] = counts.get(name, 0) + 1
-                ev.nth = counts[name]
+                ev = newev(name, pid)
                 evs.append(ev)
                 pending[pid] = (ev, mu.group(2))
                 continue
@@ -213,12 +225,10 @@ def parse_trace(path, root_abs, root_rel):
             if len(rest) > 4096 and rest.startswith("write("):
                 mf = FASTWRITE.match(rest)
                 if mf:
-                    ev = Ev()
-                    ev.sys, ev.pid, ev.kind, ev.p1, ev.p2, ev.data, ev.failed, ev.marker, ev.flags, ev.pk = "write", pid, None, None, None, None, False, None, None, 0
-                    counts["write"] = counts.get("write", 0) + 1
-                    ev.nth = counts["write"]
+                    ev = newev("write", pid)
                     evs.append(ev)
                     ev.failed = mf.group(4).startswith("-")
+                    ev.injected = "(INJECTED)" in rest[-80:]
                     ev.data = bytes.fromhex(mf.group(2).replace("\\x", ""))
                     ev.p1 = rel(fdpath(mf.group(1)))
                     if ev.p1 is not None:
@@ -230,10 +240,7 @@ def parse_trace(path, root_abs, root_rel):
             mc = CALL.match(rest)
             if mc:
                 name = mc.group(1)
-                ev = Ev()
-                ev.sys, ev.pid, ev.kind, ev.p1, ev.p2, ev.data, ev.failed, ev.marker, ev.flags, ev.pk = name, pid, None, None, None, None, False, None, None, 0
-                counts[name] = counts.get(name, 0) + 1
-                ev.nth = counts[name]
+                ev = newev(name, pid)
                 evs.append(ev)
                 finish(ev, name, mc.group(2), mc.group(3), mc.group(4))
     # calls cut off by a kill never completed: they did not happen
